@@ -415,9 +415,10 @@ static int tk_run(const uint8_t *hist, int n, uint64_t hash[2], void *arg)
 
 #define W 0      /* witness */
 #define F 1      /* faulty client */
+#define S 2      /* state ST_OTHERSTALL: a third, well behaved client that has stopped reading (frames queue up for it) */
 
-enum { ST_WAITCON, ST_FORWARD, ST_TOKEN, ST_PENDING, ST_NOSERVICE, ST_NODEVICE, N_ST };
-static const char *st_name[N_ST] = { "WAIT_CON_REQ", "FORWARD", "FORWARD+token", "FORWARD+pending-write", "FORWARD+no-services", "FORWARD+no-services, capture device closed" };
+enum { ST_WAITCON, ST_FORWARD, ST_TOKEN, ST_PENDING, ST_NOSERVICE, ST_NODEVICE, ST_OTHERSTALL, N_ST };
+static const char *st_name[N_ST] = { "WAIT_CON_REQ", "FORWARD", "FORWARD+token", "FORWARD+pending-write", "FORWARD+no-services", "FORWARD+no-services, capture device closed", "FORWARD, frames queued for a third client that does not read" };
 
 enum { AFT_NONE, AFT_SILENCE, AFT_SILENCE_TIMEOUT, AFT_DISCONNECT, N_AFT };
 static const char *aft_name[N_AFT] = { "continue", "silence", "silence+70s", "disconnect" };
@@ -443,6 +444,8 @@ static void build_templates(void)
         add_tmpl("CHN_NOTIFY_REQ(TOKEN)", MSG_TYPE_CHN_NOTIFY_REQ, &nq, sizeof nq);
         nq.notify_flags = VBI_PROXY_CHN_FLUSH | VBI_PROXY_CHN_NORM | VBI_PROXY_CHN_FAIL; nq.scanning = 525;
         add_tmpl("CHN_NOTIFY_REQ(FLUSH|NORM|FAIL)", MSG_TYPE_CHN_NOTIFY_REQ, &nq, sizeof nq);
+        nq.notify_flags = VBI_PROXY_CHN_FLUSH; nq.scanning = 0;      /* the plain channel change announcement: queue flush only */
+        add_tmpl("CHN_NOTIFY_REQ(FLUSH)", MSG_TYPE_CHN_NOTIFY_REQ, &nq, sizeof nq);
         nq.notify_flags = VBI_PROXY_CHN_RELEASE; nq.scanning = 0;
         add_tmpl("CHN_NOTIFY_REQ(RELEASE)", MSG_TYPE_CHN_NOTIFY_REQ, &nq, sizeof nq);
         add_tmpl("CHN_SUSPEND_REQ", MSG_TYPE_CHN_SUSPEND_REQ, &nq, sizeof nq);   /* the daemon checks it against the notify size */
@@ -618,10 +621,11 @@ static void scenario(const struct fcase *fc, int mode, struct run_result *rr, co
         /* ST_NODEVICE: nobody has services, the capture device stays closed (no frames); W is connected without services */
         if (fc->state == ST_NODEVICE) full_connect(W, 0, 0); else full_connect(W, VBI_SLICED_TELETEXT_B | VBI_SLICED_VPS, 0);
         drive(act_frame, 1); frames++;
+        if (fc->state == ST_OTHERSTALL) { full_connect(S, VBI_SLICED_TELETEXT_B, 0); env_clnt[S].stalled = 1; }     /* also in the reference run */
         if (mode == 0) {
                 switch (fc->state) {
                 case ST_WAITCON: drive(act_connect, F); break;
-                case ST_FORWARD: full_connect(F, VBI_SLICED_TELETEXT_B | VBI_SLICED_CAPTION_625, 1); break;
+                case ST_FORWARD: case ST_OTHERSTALL: full_connect(F, VBI_SLICED_TELETEXT_B | VBI_SLICED_CAPTION_625, 1); break;
                 case ST_TOKEN:   full_connect(F, VBI_SLICED_TELETEXT_B, 0);
                                  tk_prio = VBI_CHN_PRIO_BACKGROUND; tk_valid = 1; tk_sub = 0x10; tk_dur = 0; drive(act_token_req, F); break;
                 case ST_PENDING: full_connect(F, VBI_SLICED_TELETEXT_B, 0); env_clnt[F].stalled = 1; break;
@@ -629,10 +633,14 @@ static void scenario(const struct fcase *fc, int mode, struct run_result *rr, co
                 }
         }
         drive(act_frame, 1); frames++;
+        /* the first frame for a client that does not read waits in its message buffer, the second one stays in the daemon's queue */
+        if (fc->state == ST_PENDING || fc->state == ST_OTHERSTALL) { drive(act_frame, 1); frames++; }
         if (mode == 0) {
                 build_bytes(fc, fbytes, &fsend, &flush_allowed);
                 drive(act_send_fault, F);
-                if (fc->state == ST_PENDING) { env_clnt[F].stalled = 0; drive(act_nothing, 0); }
+                /* F still does not read while the daemon takes its message: the message is processed with F's frame queued
+                 * (a FLUSH then discards queued buffers that are still referenced); then F reads again */
+                if (fc->state == ST_PENDING) { drive(act_nothing, 0); env_clnt[F].stalled = 0; drive(act_nothing, 0); }
                 rr->image = image_hash(1); rr->image_nomsg = image_hash(0);
                 rr->f_alive = env_req(F) != NULL;
                 if (fc->aft == AFT_DISCONNECT) drive(act_disconnect, F);
@@ -675,13 +683,14 @@ static void scenario(const struct fcase *fc, int mode, struct run_result *rr, co
                 mc_hash_add(&h, g, sizeof g);
         }
         rr->final_hash = h.a ^ h.b; rr->frames = frames;
+        if (fc->state == ST_OTHERSTALL) drive(act_disconnect, S);
         drive(act_disconnect, W);
         if (env_cap.is_open || proxy.dev[0].p_capture) mc_violation(key, "device still open after the last client left");
         if (proxy.p_clnts) mc_violation(key, "client records remain after all clients left");
         env_shutdown();
 }
 
-static uint64_t ref_final, ref_final_nodev; static int ref_fds = -1;
+static uint64_t ref_final, ref_final_nodev, ref_final_otherstall; static int ref_fds = -1;
 static uint64_t strict_images[2][N_ST][4][2]; static int strict_images_ok;
 static uint64_t strict_closed_image[2][N_ST][2];
 
@@ -714,6 +723,8 @@ static void ensure_refs(void)
         scenario(&dummy, 1, &rr, "reference run without a faulty client"); ref_final = rr.final_hash;
         dummy.state = ST_NODEVICE;
         scenario(&dummy, 1, &rr, "reference run without a faulty client"); ref_final_nodev = rr.final_hash;
+        dummy.state = ST_OTHERSTALL;
+        scenario(&dummy, 1, &rr, "reference run without a faulty client"); ref_final_otherstall = rr.final_hash;
         /* images for the strict oracle: the four in-range values and a rejection, per state and message */
         for (int which = 0; which < 2; which++) for (int st = 0; st < N_ST; st++) {
                 for (int r = 0; r < 4; r++) {
@@ -742,7 +753,7 @@ static void fault_case(uint64_t idx, void *arg)
                 size_t heap0 = heap_now();
                 struct run_result rr; memset(&rr, 0, sizeof rr);
                 scenario(fc, 0, &rr, key);
-                if (rr.final_hash != (fc->state == ST_NODEVICE ? ref_final_nodev : ref_final)) mc_violation(key, "%s: daemon state after the faulty client left differs from a run without it", det);
+                if (rr.final_hash != (fc->state == ST_NODEVICE ? ref_final_nodev : fc->state == ST_OTHERSTALL ? ref_final_otherstall : ref_final)) mc_violation(key, "%s: daemon state after the faulty client left differs from a run without it", det);
                 int fds1 = count_open_fds();
                 if (fds0 >= 0 && fds1 != fds0) mc_violation(key, "%s: %d file descriptors leaked", det, fds1 - fds0);
                 /* heap bytes in use must be back at the level before the scenario; LeakSanitizer (slow) names the block */
